@@ -4,6 +4,8 @@ use serde_json::{json, Value};
 use std::io::{self, BufRead, Write};
 
 mod driver;
+mod exec;
+mod tables;
 mod lcd;
 mod regs;
 mod rt;
@@ -15,6 +17,7 @@ pub struct Ctx {
     pub rt: rt::RtCtx,
     pub driver: driver::DriverCtx,
     pub lcd: lcd::LcdCtx,
+    pub exec: exec::ExecCtx,
 }
 
 fn dispatch(ctx: &mut Ctx, req: &Value) -> Result<Value, String> {
@@ -26,6 +29,8 @@ fn dispatch(ctx: &mut Ctx, req: &Value) -> Result<Value, String> {
         c if c.starts_with("rt.") => rt::handle(&mut ctx.rt, c, req),
         c if c.starts_with("driver.") => driver::handle(&mut ctx.driver, c, req),
         c if c.starts_with("lcd.") => lcd::handle(&mut ctx.lcd, c, req),
+        c if c.starts_with("exec.") => exec::handle(&mut ctx.exec, c, req),
+        c if c.starts_with("tables.") => tables::handle(c, req),
         _ => Err(format!("unknown cmd {cmd}")),
     }
 }
@@ -34,7 +39,7 @@ fn main() {
     let stdin = io::stdin();
     let stdout = io::stdout();
     let mut out = io::BufWriter::new(stdout.lock());
-    let mut ctx = Ctx { regs: regs::RegsCtx::default(), timer: timer::TimerCtx::default(), rt: rt::RtCtx::default(), driver: driver::DriverCtx::default(), lcd: lcd::LcdCtx::default() };
+    let mut ctx = Ctx { regs: regs::RegsCtx::default(), timer: timer::TimerCtx::default(), rt: rt::RtCtx::default(), driver: driver::DriverCtx::default(), lcd: lcd::LcdCtx::default(), exec: exec::ExecCtx::default() };
     for line in stdin.lock().lines() {
         let line = match line {
             Ok(l) => l,
